@@ -39,6 +39,9 @@ impl<A: Tracker> PieInternal<A> {
 
   pub fn resource_state<R: Resource>(&self) -> &impl ResourceState<R> { &self.resource_state }
   pub fn resource_state_mut<R: Resource>(&mut self) -> &mut impl ResourceState<R> { &mut self.resource_state }
+
+  #[cfg(feature = "gohla_pie_verif")]
+  pub fn verif_dump_store(&self) -> Vec<String> { self.store.verif_dump() }
 }
 
 /// Internals for [`Session`].
